@@ -42,6 +42,9 @@ package html
 //@   loop 1 decreases len(b) - rangeindex
 
 //@ func Lexer.moveTemplate
+// inside a quoted string of a template region a backslash escapes the next byte unless it is itself escaped: the flag is the
+// parity of the run of backslashes just scanned (so the string's closing quote is found after an even run)
+//@   loop 2 transition[F,C09] @escape-parity: escape <==> (prev(l.r.buf[l.r.pos]) == '\\' && !prev(escape))
 //@   preserves[S] hScan(l)
 //@   ensures[T] sameBytesExcept(0, 0)
 //@   loop * candidate l.r.start == old(l.r.start)
@@ -172,6 +175,11 @@ package html
 //@   loop * decreases len(l.r.buf) - l.r.pos
 
 //@ func Lexer.readMarkup
+// a comment ends at the first '-->' or '--!>' after its opening, a CDATA section at the first ']]>', a doctype at the first '>'
+//@   loop 1 invariant[F] @comment-first-end: forall(k, old(l.r.pos) + 2, l.r.pos, !(l.r.buf[k] == '-' && l.r.buf[k+1] == '-' && (l.r.buf[k+2] == '>' || (l.r.buf[k+2] == '!' && l.r.buf[k+3] == '>'))))
+//@   loop 2 invariant[F] @cdata-first-end: forall(k, old(l.r.pos) + 7, l.r.pos, !(l.r.buf[k] == ']' && l.r.buf[k+1] == ']' && l.r.buf[k+2] == '>'))
+//@   loop 3 invariant[F] @doctype-first-end: forall(k, old(l.r.pos) + 7, l.r.pos, l.r.buf[k] != '>')
+//@   loop * invariant[F] l.r.pos >= old(l.r.pos)
 //@   preserves[S] hScan(l)
 //@   ensures[F,C09] @intag: l.inTag == old(l.inTag) && l.hasTmpl == old(l.hasTmpl)
 //@   ensures[T]  result0 != ErrorToken ==> sameMem(result1, l.r.buf[old(l.r.start):l.r.pos]) && cap(result1) == len(result1)
